@@ -41,7 +41,9 @@ def drive(sc):
         "nonlinear_constraints": {"lower_bounds": lb, "upper_bounds": ub},
     }
 
-    if (v[0] + v[1] + int(sc["tf"])) % 2 == 0:
+    plain_cfg = dict(cfg)
+    objects = (v[0] + v[1] + int(sc["tf"])) % 2 == 0
+    if objects:
         # sections the caller validated beforehand as objects of their own (instead of dictionaries)
         from ropt.config.enopt import LinearConstraintsConfig, NonlinearConstraintsConfig, VariablesConfig
         for key, cls in (("variables", VariablesConfig), ("linear_constraints", LinearConstraintsConfig),
@@ -64,6 +66,10 @@ def drive(sc):
         other = dict(cfg, linear_constraints={"coefficients": [[8.0, -1.0], [0.5, 0.25]], "lower_bounds": [-1.0, -1.0],
                                               "upper_bounds": [1.0, 1.0]})
         EnOptConfig.model_validate(other, context=transforms)
+    if objects:
+        # ... and the caller's section objects have been through a complete validation (with the same context) before
+        from ropt.config.enopt import EnOptConfig
+        EnOptConfig.model_validate(cfg, context=transforms)
     _, outcome = outcome_of(lambda: plan.run_step(step, config=cfg, transforms=transforms))
     fr = next((r for r in seen if isinstance(r, FunctionResults)), None)
     ci = None if fr is None else fr.constraint_info
@@ -79,7 +85,7 @@ def drive(sc):
         # rows) is validated with the same object, then this configuration is evaluated
         transforms2 = {1: make_transforms([2.0, 0.5], [1.0, -1.0], [2.0], [2.0, 4.0]), 2: make_transforms(var_scales=[2.0, 0.5]),
                        3: make_transforms(var_offsets=[1.0, -1.0])}[int(sc["tf"])]
-        mine = EnOptConfig.model_validate(cfg, context=transforms2)
+        mine = EnOptConfig.model_validate(plain_cfg, context=transforms2)      # (from dictionaries: this event is about the transform object only)
         EnOptConfig.model_validate(other, context=transforms2)
         seen.clear()
         plan2 = Plan(ctx)
